@@ -199,7 +199,54 @@ def phase_queries(data):
             b["plan"] = plan
             b["shape"] = item["shape"]
             out["mismatches"].append(b)
+    other_thread_cases(out)
     return out
+
+
+def other_thread_cases(out):
+    """outer frame running on ANOTHER thread: an ordinary threading.Thread, and a thread the threading module has never
+    heard of (_thread.start_new_thread; a thread created by C code would be the same) -- the slice is that thread's
+    frames from outer inward, whichever kind it is"""
+    import _thread
+    import threading
+    import time
+    for kind in ("threading.Thread", "_thread.start_new_thread"):
+        box, lock, ready = {}, _thread.allocate_lock(), _thread.allocate_lock()
+        lock.acquire()
+        ready.acquire()
+
+        def innermost():
+            box["inner"] = sys._getframe(0)
+            ready.release()
+            lock.acquire()
+
+        def middle():
+            box["mid"] = sys._getframe(0)
+            innermost()
+
+        def outermost():
+            box["outer"] = sys._getframe(0)
+            middle()
+        if kind == "threading.Thread":
+            threading.Thread(target=outermost, daemon=True).start()
+        else:
+            _thread.start_new_thread(outermost, ())
+        ready.acquire()
+        time.sleep(0.02)
+        truth = [box["outer"], box["mid"], box["inner"]]
+        try:
+            for label, st, want in (
+                    ("extract_since(outer)", stackscope.extract_since(box["outer"]), truth),
+                    ("extract_since(middle)", stackscope.extract_since(box["mid"]), truth[1:]),
+                    ("extract(StackSlice(outer, limit=2))", stackscope.extract(stackscope.StackSlice(outer=box["outer"], limit=2)), truth[:2]),
+                    ("extract_until(innermost)", stackscope.extract_until(box["inner"], limit=box["mid"]), truth[1:])):
+                out["n"] += 1
+                got = [f.pyframe for f in st.frames]
+                if got != want or st.error is not None:
+                    out["mismatches"].append({"plan": [["other thread: " + kind]], "shape": [3], "query": label,
+                                              "bad": "frames %s expected %s error %r" % ([f.f_code.co_name for f in got], [f.f_code.co_name for f in want], st.error)})
+        finally:
+            lock.release()
 
 
 def main():
